@@ -225,7 +225,7 @@ def check(pid, tier, seed, update_expected=False):
                         return undecided(pid, tier, seed, t0, 'kani harness %s produced no verdict' % h, r['raw_tail'])
                     isb = h in g.get('bounded', {})
                     ok = hr['status'] == 'SUCCESSFUL'
-                    if hr['cover_total'] and hr['cover_satisfied'] < hr['cover_total']:
+                    if ok and hr['cover_total'] and hr['cover_satisfied'] < hr['cover_total']:
                         return undecided(pid, tier, seed, t0, 'vacuity guard: cover in %s unsatisfied (%d/%d)' % (h, hr['cover_satisfied'], hr['cover_total']))
                     rec = {'id': oid, 'backend': 'kani/cbmc', 'ok': ok, 'time_s': hr['time_s'], 'checks': hr['checks'],
                            'covers': '%d/%d' % (hr['cover_satisfied'], hr['cover_total'])}
